@@ -315,10 +315,14 @@ class ConstraintComponent(object, metaclass=abc.ABCMeta):
             fdict.update(bound_vars)
         else:
             return msg
-        for var, val in fdict.items():
-            substring = "{{[?$]{}}}".format(var)
-            msg = re.sub(substring, str(val), msg)
-        return msg
+
+        def _bound_value(match):
+            # The value is inserted as it is (a backslash in it is not a regex group reference), in one pass
+            # over the template (text that a value brings along is not a placeholder).
+            val = fdict.get(match.group(1), None)
+            return match.group(0) if val is None else str(val)
+
+        return re.sub(r"{[?$]([^{}]+)}", _bound_value, msg)
 
 
 SH_nodeValidator = SH.nodeValidator
